@@ -9,14 +9,17 @@ Ev == Trace[l]
 Last == Trace[hi]
 FaceMap(s) == [f \in { s[x].id : x \in 1..Len(s) } |-> s[CHOOSE x \in 1..Len(s) : s[x].id = f].mtu]
 NoEv == [c |-> [pfx |-> "none", local |-> FALSE, mod |-> "", verb |-> ""], accepted |-> FALSE]
-TInit == routes = {} /\ nh = Empty /\ st = Empty /\ cap = 0 /\ faces = Empty /\ lh = FALSE /\ ev = NoEv /\ l = 1 /\ hi = 0 /\ TLCSet(7, 0)
+AttrMap(s) == [f \in { s[x].id : x \in 1..Len(s) } |->
+                 LET e == s[CHOOSE x \in 1..Len(s) : s[x].id = f] IN
+                 [scope |-> e.scope, schemes |-> { e.schemes[k] : k \in 1..Len(e.schemes) }, uri |-> e.uri, luri |-> e.luri]]
+TInit == routes = {} /\ nh = Empty /\ st = Empty /\ cap = 0 /\ faces = Empty /\ fattr = Empty /\ lh = FALSE /\ ev = NoEv /\ l = 1 /\ hi = 0 /\ TLCSet(7, 0)
 \* for a command the statement lets the implementation refuse or accept, the observed status decides
 Took(c, status) == IF Authorised(c) /\ Known(c) /\ ~Malformed(c) /\ MayRefuse(c) THEN status = "200" ELSE Accepts(c)
 Step ==
   /\ l <= Len(Trace) /\ l' = l + 1 /\ hi' = l
   /\ \/ /\ Ev.ev = "Reset"
-        /\ routes' = {} /\ nh' = Empty /\ st' = (<<>> :> Ev.rootStrategy) /\ cap' = Ev.cap
-        /\ faces' = FaceMap(Ev.faces) /\ lh' = Ev.lh /\ ev' = NoEv
+        /\ routes' = RouteSet(Ev.routes0) /\ nh' = Empty /\ st' = (<<>> :> Ev.rootStrategy) /\ cap' = Ev.cap
+        /\ faces' = FaceMap(Ev.faces) /\ fattr' = AttrMap(Ev.faces) /\ lh' = Ev.lh /\ ev' = NoEv
      \/ Ev.ev = "cmd" /\ Command(Ev.c, Took(Ev.c, Ev.o.status))
 TSpec == TInit /\ [][Step]_tvars
 HiWater == TLCSet(7, IF TLCGet(7) < hi THEN hi ELSE TLCGet(7))
@@ -48,5 +51,16 @@ I_C17ds2    == Obs => /\ FibAll(Last.o.dsFib) = FibAll(Last.o.fib) /\ Len(Last.o
 I_C17ds     == Obs => /\ Last.o.dsOK
                       /\ RouteSet(Last.o.dsRoutes) = routes /\ Len(Last.o.dsRoutes) = Cardinality(routes)
                       /\ StratMap(Last.o.dsStrats) = st /\ Len(Last.o.dsStrats) = Cardinality(DOMAIN st)
+\* faces/query: each filtered dataset lists exactly the faces the filter matches, once
+I_C17query  == Obs => \A x \in 1..Len(Last.o.queries) :
+                        LET q == Last.o.queries[x] IN
+                        /\ { q.ids[k] : k \in 1..Len(q.ids) } = QueryAnswer(q.f) /\ Len(q.ids) = Cardinality(QueryAnswer(q.f))
+\* status/general: the table sizes it reports are the sizes of the tables (FIB entries as listed; PIT and CS of the forwarding thread as
+\* counted at the instant the dataset was generated: the status Interest itself is pending, its answer is not cached yet)
+I_C17gen    == Obs => /\ Last.o.gen.ok /\ Last.o.gen.nfib = Len(Last.o.fib)
+                      /\ Last.o.gen.ncs = Last.o.gen.ncsBefore
+                      /\ Last.o.gen.npit \in {Last.o.gen.npitBefore, Last.o.gen.npitBefore + 1}   \* (the command itself may have been this very Interest: one entry)
+\* faces/list: the traffic counters of a face are that face's counters (target faces: nothing travels on them while the datasets are read)
+I_C17ctr    == Obs => \A x \in 1..Len(Last.o.ctr) : Last.o.ctr[x].dsIn = Last.o.ctr[x].inb /\ Last.o.ctr[x].dsOut = Last.o.ctr[x].outb
 I_C17usable == Obs => \A x \in 1..Len(Last.o.probes) : Last.o.probes[x].frames >= 1 /\ Last.o.probes[x].whole /\ Last.o.probes[x].fits
 ====
